@@ -18,7 +18,7 @@ import time
 
 VERIF = os.path.dirname(os.path.dirname(os.path.dirname(os.path.abspath(__file__))))
 REPO = os.environ.get("VERIF_REPO", "/repo")
-WORK = os.path.join(VERIF, ".work")
+WORK = os.environ.get("VERIF_WORK") or os.path.join(VERIF, ".work")   # VERIF_WORK: private cache/target dir for parallel developer runs (tools/regress.py)
 DRIVER_DIR = os.path.join(VERIF, "engine", "antfacts")
 DRIVER = os.path.join(DRIVER_DIR, "target", "release", "antfacts")
 
@@ -222,26 +222,58 @@ def norm(path):
 
 class Body:
     __slots__ = ("path", "npath", "crate", "unit", "bin", "kind", "coroutine", "parent", "self_ty",
-                 "trait", "pub", "file", "lines", "mac", "nblocks", "yields", "calls", "aggregates",
-                 "field_mut", "asserts", "_facts", "_detail", "_cfg", "_ref_roots", "_prepped")
+                 "trait", "pub", "file", "lines", "mac", "nblocks", "yields", "calls_raw", "aggregates_raw",
+                 "field_mut_raw", "asserts_raw", "_facts", "_detail", "_cfg", "_ref_roots", "_prepped", "_inl")
 
     def __init__(self, d, facts):
         for k in ("path", "crate", "unit", "bin", "kind", "coroutine", "parent", "self_ty", "trait",
-                  "pub", "file", "lines", "mac", "nblocks", "yields", "calls", "aggregates",
-                  "field_mut", "asserts"):
+                  "pub", "file", "lines", "mac", "nblocks", "yields"):
             setattr(self, k, d[k])
+        for k in ("calls", "aggregates", "field_mut", "asserts"):
+            setattr(self, k + "_raw", d[k])
+        self._inl = None
         self.npath = norm(self.path)
         self._facts = facts
         self._detail = None
         self._cfg = None
-        for c in self.calls:
+        for c in self.calls_raw:
             c["ncallee"] = norm(c["callee"])
             c["ngen"] = norm(c["gen"])
+
+    # Summary facts as a rule about *this function* sees them: its own plus those of the helpers inlined into it (engine/py/inline.py).
+    # The *_raw lists are the function's own only; workspace-wide scans (who-may rules, call graph) use those.
+    def _with_inlined(self, kind):
+        if self._inl is None:
+            import inline
+            self._inl = {}
+            if inline.has_candidates(self._facts, self):
+                self._inl = self.detail.get("extra", {})
+        extra = self._inl.get(kind)
+        raw = getattr(self, kind + "_raw")
+        return raw + extra if extra else raw
+
+    @property
+    def calls(self):
+        return self._with_inlined("calls")
+
+    @property
+    def aggregates(self):
+        return self._with_inlined("aggregates")
+
+    @property
+    def field_mut(self):
+        return self._with_inlined("field_mut")
+
+    @property
+    def asserts(self):
+        return self._with_inlined("asserts")
 
     @property
     def detail(self):
         if self._detail is None:
-            self._detail = self._facts._detail_for(self.unit)[self.path]
+            raw = self._facts._detail_for(self.unit)[self.path]
+            import inline
+            self._detail = inline.inline_detail(self._facts, self, raw)
         return self._detail
 
     @property
@@ -325,6 +357,18 @@ class Facts:
         i = 0
         while i < len(out):
             out.extend(self.children.get(out[i].path, []))
+            # closures written inside a helper that is inlined into this body belong to it as well (engine/py/inline.py)
+            b = out[i]
+            try:
+                import inline
+                if inline.has_candidates(self, b):
+                    for rec in b.detail.get("inlined", []):
+                        for h in self.by_npath.get(rec["callee"], []):
+                            for ch in self.children.get(h.path, []):
+                                if ch not in out:
+                                    out.append(ch)
+            except Exception:
+                pass
             i += 1
         return out
 
@@ -338,7 +382,7 @@ class Facts:
         if self._callers is None:
             idx = {}
             for b in self.bodies.values():
-                for c in b.calls:
+                for c in b.calls_raw:
                     if c["ncallee"]:
                         idx.setdefault(c["ncallee"], []).append((b, c))
                     if c["ngen"] and c["ngen"] != c["ncallee"]:
@@ -351,7 +395,7 @@ class Facts:
             "crates": len(self.crates),
             "functions": len(self.bodies),
             "blocks": sum(b.nblocks for b in self.bodies.values()),
-            "call_sites": sum(len(b.calls) for b in self.bodies.values()),
+            "call_sites": sum(len(b.calls_raw) for b in self.bodies.values()),
         }
 
 
